@@ -108,10 +108,10 @@ func b2i(b bool) int {
 // c13.rt
 
 type av1View struct {
-	err        bool
-	z, y, n    bool
-	w          byte
-	elems      [][]byte
+	err     bool
+	z, y, n bool
+	w       byte
+	elems   [][]byte
 }
 
 // observeAV1Rt runs Payload and both receive paths and writes RtObs.
